@@ -179,51 +179,7 @@ func checkC07(cx *Ctx, r *Report) {
 
 	// --- decoders are not stricter than encoding/xml ----------------------------------------------------------
 	for _, dk := range []string{"xml.DecodeAuthNRequest", "xml.DecodeLogoutRequest", "xml.DecodeAttributeQuery"} {
-		fn := w.Func(dk)
-		if fn == nil {
-			r.Fail("R-STRICT", dk, "", "anchor not found")
-			continue
-		}
-		fn = throughDelegation(fn) // DecodeX(...) { return decodeInto[X](...) }
-		aps, ok := fx.atomPaths(fn, 1024)
-		if !ok {
-			r.Undecided("R-STRICT", dk, w.FnPos(fn), "too many paths")
-			continue
-		}
-		bad := ""
-		for i := range aps {
-			p := &aps[i]
-			ev := fx.retVal(p, 1)
-			if isNilConst(ev) {
-				continue
-			}
-			if isFreshError(ev) {
-				// a rejection of the decoder's own: only the absent AttributeQuery is one
-				okOwn := false
-				for _, a := range p.Atoms {
-					if a.Op == "NIL" && !a.Neg && strings.HasSuffix(a.A, ".Body.AttributeQuery") {
-						okOwn = true
-					}
-				}
-				if !okOwn {
-					bad = "the decoder rejects input with an error of its own at " + w.InstrPos(p.Ret) + " (" + atomsString(p.Atoms) + "): requests encoding/xml accepts are refused"
-				}
-				continue
-			}
-			// propagated error of InflateAndDecode / Unmarshal / Decode
-			okProp := decoderErrorOK(w, ev, fn.Pkg, 0)
-			if !okProp {
-				bad = "the decoder returns an error that is not the one of InflateAndDecode / encoding/xml at " + w.InstrPos(p.Ret)
-			}
-		}
-		// only the expected decoding calls
-		for _, c := range callsIn(fn) {
-			n := calleeName(c)
-			if strings.HasPrefix(n, "(*encoding/xml.Decoder).") && n != "(*encoding/xml.Decoder).Decode" {
-				bad = "the decoder drives encoding/xml token by token (" + shortCallee(n) + "): it can reject documents Unmarshal accepts (e.g. trailing white space or comments)"
-			}
-		}
-		r.Check(bad == "", "R-STRICT", dk, w.FnPos(fn), "rejects only what InflateAndDecode / encoding/xml reject", bad)
+		cx.checkDecoderNotStricter(r, dk)
 	}
 	// time check: every rejection is an unparseable bound or a bound on the wrong side
 	if fn := w.Func("provider.checkIfRequestTimeIsStillValid$1"); fn != nil {
@@ -784,6 +740,26 @@ func (cx *Ctx) checkRequestTimeLayout(r *Report) {
 	if n == 0 {
 		r.Ok("R-STRICT", "sso:conditions-layout", "", "no call of the time check in the SSO handler's scope (judged by C06)")
 	}
+	// the logout handler parses the request's instants with the provider's time format: what the constructor puts there
+	// by default has to accept every fractional precision too (a default written with zeros accepts exactly that many
+	// digits and turns away requests with second or microsecond precision)
+	if ni := w.Func("provider.NewIdentityProvider"); ni != nil {
+		lvf := cx.newVFlow("NewIdentityProvider:timeformat", ni)
+		ls, sites := lvf.FieldStoreSources("provider.IdentityProvider", "TimeFormat")
+		bad := ""
+		for _, l := range lvf.Deep(ls).leaves() {
+			if !strings.HasPrefix(l, "const:") {
+				continue
+			}
+			layout := strings.TrimPrefix(l, "const:")
+			if i := strings.Index(layout, "."); i >= 0 && i+1 < len(layout) && layout[i+1] == '0' {
+				bad = "the default time format " + layout + " has a fixed-width fraction: it is also the layout LogoutRequest instants are parsed with, requests with any other precision are refused"
+			}
+		}
+		if len(sites) > 0 {
+			r.Check(bad == "", "R-STRICT", "slo:default-time-layout", w.InstrPos(sites[0]), "the default time format accepts every fractional precision when used for parsing", bad)
+		}
+	}
 }
 
 // checkVerifierRefusals: the signature-verification helpers (packages signature and serviceprovider) refuse a message
@@ -1069,4 +1045,59 @@ func (cx *Ctx) deflateDefaultByHelper(fn *ssa.Function, form string) (string, bo
 		return "the helper computing the encoding never returns DEFLATE", false
 	}
 	return "", false
+}
+
+// checkDecoderNotStricter (R-STRICT, shared with C13): a request decoder refuses only what InflateAndDecode /
+// encoding/xml refuse (the attribute-query decoder also an envelope without query). A decoder that turns away a
+// document it could decode - for a missing Issuer, say - takes the decoded request (and its ID, which the refusal has
+// to echo) away from the handler.
+func (cx *Ctx) checkDecoderNotStricter(r *Report, dk string) {
+	w, fx := cx.W, cx.Fx
+	{
+		fn := w.Func(dk)
+		if fn == nil {
+			r.Fail("R-STRICT", dk, "", "anchor not found")
+			return
+		}
+		fn = throughDelegation(fn) // DecodeX(...) { return decodeInto[X](...) }
+		aps, ok := fx.atomPaths(fn, 1024)
+		if !ok {
+			r.Undecided("R-STRICT", dk, w.FnPos(fn), "too many paths")
+			return
+		}
+		bad := ""
+		for i := range aps {
+			p := &aps[i]
+			ev := fx.retVal(p, 1)
+			if isNilConst(ev) {
+				continue
+			}
+			if isFreshError(ev) {
+				// a rejection of the decoder's own: only the absent AttributeQuery is one
+				okOwn := false
+				for _, a := range p.Atoms {
+					if a.Op == "NIL" && !a.Neg && strings.HasSuffix(a.A, ".Body.AttributeQuery") {
+						okOwn = true
+					}
+				}
+				if !okOwn {
+					bad = "the decoder rejects input with an error of its own at " + w.InstrPos(p.Ret) + " (" + atomsString(p.Atoms) + "): requests encoding/xml accepts are refused"
+				}
+				continue
+			}
+			// propagated error of InflateAndDecode / Unmarshal / Decode
+			okProp := decoderErrorOK(w, ev, fn.Pkg, 0)
+			if !okProp {
+				bad = "the decoder returns an error that is not the one of InflateAndDecode / encoding/xml at " + w.InstrPos(p.Ret)
+			}
+		}
+		// only the expected decoding calls
+		for _, c := range callsIn(fn) {
+			n := calleeName(c)
+			if strings.HasPrefix(n, "(*encoding/xml.Decoder).") && n != "(*encoding/xml.Decoder).Decode" {
+				bad = "the decoder drives encoding/xml token by token (" + shortCallee(n) + "): it can reject documents Unmarshal accepts (e.g. trailing white space or comments)"
+			}
+		}
+		r.Check(bad == "", "R-STRICT", dk, w.FnPos(fn), "rejects only what InflateAndDecode / encoding/xml reject", bad)
+	}
 }
